@@ -120,10 +120,13 @@ def merged_object(s: dict, comps: dict, depth: int = 0) -> dict:
 class Tok:
     """Unique tokens so that every written value identifies its source."""
 
+    EDGE_STRINGS = ["", "0", "false", "null", " ", "a b&c=d+e%25", "\u00e9\u6f22\U0001f680", "x" * 300, "line\nbreak", "{}", "[]", "-1", "None", "UNSET", "\"quoted\"", "tab\there"]
+
     def __init__(self, rng: random.Random):
         self.rng = rng
         self.n = 100
         self.flags: set = set()
+        self.edge = 0.0  # probability of an edge-case value (empty / falsy-looking / non-ASCII / long) for a plain string, 0 / huge for integers
 
     def take_flags(self) -> list:
         f = sorted(self.flags)
@@ -173,8 +176,12 @@ def _typed_scalar(t: str, fmt, tok: Tok):
             return tok.datetime()
         if fmt == "uuid":
             return tok.uuid()
+        if tok.edge and tok.rng.random() < tok.edge:
+            return tok.rng.choice(Tok.EDGE_STRINGS)
         return tok.string()
     if t == "integer":
+        if tok.edge and tok.rng.random() < tok.edge:
+            return tok.rng.choice([0, 1, -1, 2**53 - 1, -(2**53 - 1), 2**31, -(2**31) - 1, 10**15])
         return tok.integer()
     if t == "number":
         return tok.number()
